@@ -139,6 +139,86 @@ pub fn c08(t: &dyn TypeOps, cx: &mut Cx) {
         }
         if vi == 0 { cx.sample(json!({"type": cx.type_id, "value": format!("{:?}", want), "file_len": flen, "loaders": LOADERS, "flag_sets": flagsets, "histories": hs.len()})); }
     }
+    // ---- file lengths at and around the boundaries a loader may treat specially: exact
+    // multiples of the page size and of 64 KiB (and one scaling step below / above them), and a
+    // file of more than 2 MiB (the huge-page size) under every flag set
+    if let Some(i) = first_scalable(t, n) {
+        let len_at = |k: usize| -> Option<usize> { match t.ser_scaled(i, k) { Out::Ok((b, _)) => Some(b.len()), _ => None } };
+        if let (Some(l1), Some(l2)) = (len_at(1), len_at(2)) {
+            let b = l2.saturating_sub(l1);
+            if b > 0 && l1 >= b {
+                let a = l1 - b; // file length of scaling k is a + b * k
+                let mut ks: Vec<(usize, &str)> = vec![];
+                for unit in [4096usize, 65536] {
+                    // the smallest multiple of the unit that some scaling hits exactly
+                    if let Some(m) = (1..=8usize).find(|m| unit * m > a + b && (unit * m - a) % b == 0) {
+                        let k = (unit * m - a) / b;
+                        ks.push((k, "exact-multiple"));
+                        if b > 1 { ks.push((k - 1, "below-multiple")); ks.push((k + 1, "above-multiple")); }
+                    } else {
+                        let k = (unit.saturating_sub(a)) / b;
+                        if k >= 1 { ks.push((k, "below-multiple")); ks.push((k + 1, "above-multiple")); }
+                    }
+                }
+                let big = cx.tier == Tier::Thorough || hash64(&[cx.type_id.as_bytes()]) % 8 == 0;
+                if big { ks.push((((2usize << 20) + 4096 - a) / b + 1, "over-2MiB")); }
+                for (k, klass) in ks {
+                    let (bytes, _) = match t.ser_scaled(i, k) { Out::Ok(x) => x, _ => continue };
+                    let flen = bytes.len();
+                    cx.count(&format!("boundary_files_{}", klass), 1);
+                    if flen % 65536 == 0 { cx.count("boundary_files_len_multiple_of_64KiB", 1); }
+                    if flen % 4096 == 0 { cx.count("boundary_files_len_multiple_of_4KiB", 1); }
+                    std::fs::write(&path, &bytes).unwrap();
+                    let huge = flen > (1 << 20);
+                    let expect = if huge { None } else {
+                        let mut arena = Arena::new(flen + 4096);
+                        let placed = arena.place(0, &bytes);
+                        match t.eps(placed) { Out::Ok((v, _)) => Some(v), _ => { cx.outcome("skipped-eps-of-bytes-fails"); continue; } }
+                    };
+                    for loader in 0..4u8 {
+                        if huge && loader == 0 { continue; }
+                        for (fi, flags) in (0..8u32).enumerate() {
+                            if loader < 2 && fi > 0 { continue; }
+                            if !huge && cx.tier != Tier::Thorough && flags != 0 && flags != 7 { continue; }
+                            cx.evals += 1;
+                            cx.transitions += 1;
+                            let base_maps = loader_mappings();
+                            let r = t.load_history(loader, &path, flags, if huge { &[254] } else { &[] });
+                            cx.outcome(&format!("{}-{}-{}", klass, LOADERS[loader as usize], r.class()));
+                            let obs = match r {
+                                Out::Ok(o) => o,
+                                o => { cx.violate(&format!("{}-{}-on-{}-file", LOADERS[loader as usize], o.class(), klass), json!({"scaling": k, "file_len": flen, "flags": flags, "observed": o.describe()})); continue; }
+                            };
+                            let ob = &obs[0];
+                            let mut bad: Vec<&str> = vec![];
+                            if let Some(e) = &expect { if ob.val != *e { bad.push("value-differs-from-eps-of-file-bytes"); } }
+                            if loader > 0 {
+                                let (_, base, len) = ob.region;
+                                if len < flen { bad.push("region-shorter-than-file"); }
+                                else {
+                                    if loader == 1 && len != round_up(flen, 64) { bad.push("load_mem-length-not-rounded-to-64"); }
+                                    // content of the whole region: the file followed by zeros (mmap: the file)
+                                    let mut h = xxhash_rust::xxh3::Xxh3::new();
+                                    h.update(&bytes);
+                                    if loader <= 2 { h.update(&vec![0u8; len - flen]); }
+                                    if loader <= 2 && h.digest() != ob.region_hash { bad.push("region-content-differs-from-file-plus-zeros"); }
+                                    if loader == 3 && huge && len == flen && xxhash_rust::xxh3::xxh3_64(&bytes) != ob.region_hash { bad.push("region-content-differs-from-file"); }
+                                    if loader == 3 && !huge && ob.region_bytes.len() >= flen && ob.region_bytes[..flen] != bytes[..] { bad.push("region-content-differs-from-file"); }
+                                    for s in &ob.spans {
+                                        if s.bytes > 0 && (s.addr < base || s.addr.saturating_add(s.bytes) > base + len) { bad.push("borrowed-part-outside-backing-region"); }
+                                    }
+                                }
+                            }
+                            drop(obs);
+                            if loader_mappings() != base_maps { bad.push("mapping-count-not-restored-after-drop"); }
+                            bad.sort(); bad.dedup();
+                            for b_ in bad { cx.violate(&format!("{}-{}-on-{}-file", LOADERS[loader as usize], b_, klass), json!({"scaling": k, "file_len": flen, "flags": flags})); }
+                        }
+                    }
+                }
+            }
+        }
+    }
     let _ = std::fs::remove_file(&path);
 }
 
@@ -196,9 +276,16 @@ pub fn c09(t: &dyn TypeOps, cx: &mut Cx) {
         };
         for k in cuts { causes.push((format!("truncated@{}", k), Some(bytes[..k].to_vec()))); }
         causes.push(("missing-file".into(), None));
+        // paths whose metadata reports a length that cannot be read: a directory, and a kernel
+        // attribute file (st_size = 4096, a few bytes of content)
+        let mut special: Vec<(String, String)> = vec![("directory".into(), scratch().to_string())];
+        for f in ["/sys/kernel/mm/transparent_hugepage/enabled", "/sys/kernel/mm/transparent_hugepage/defrag", "/sys/power/state", "/sys/kernel/profiling"] {
+            if vi == 0 && std::fs::metadata(f).map(|m| m.len() > 64).unwrap_or(false) && std::fs::read(f).map(|c| c.len() < 64).unwrap_or(false) { special.push(("pseudo-file-shorter-than-its-size".into(), f.to_string())); break; }
+        }
+        for (name, _) in &special { causes.push((name.clone(), None)); }
         let mut leaked: std::collections::HashSet<(u8, String)> = Default::default();
         for (cause, content) in &causes {
-            let p = if let Some(c) = content { std::fs::write(&path, c).unwrap(); path.clone() } else { format!("{}/does-not-exist", scratch()) };
+            let p = if let Some(c) = content { std::fs::write(&path, c).unwrap(); path.clone() } else if let Some((_, sp)) = special.iter().find(|(n, _)| n == cause) { sp.clone() } else { format!("{}/does-not-exist", scratch()) };
             for loader in 1..4u8 {
                 // one report per (loader, cause class) is enough; do not keep leaking
                 if leaked.contains(&(loader, cause.split('@').next().unwrap().to_string())) { continue; }
